@@ -56,6 +56,10 @@ T["C03"] = ("differential monitor (single step vs all steps, vectorised vs stepw
             "Every feature at every step is compared with the column of its all-steps evaluation; the same model is run through both branches of compute_hedge; "
             "pre/forward hooks on the model check that the prev_hedge entries at step i are bit-identical to the output of step i-1 and zeros (one per instrument) at step 0, "
             "also on repeated calls of one hedger.", "4 C03")
+T["C11"] = ("postcondition contracts on every generate_* return and on simulate() of every primary (old-buffer identity snapshot at entry)",
+            "Every generator call (all aliases) and every primary simulate() in shape / dtype (incl. half precisions and both global defaults) / initial-state / parameter-regime "
+            "sweeps and re-simulation histories is judged: shape, first column = requested or default initial state, finiteness, positivity (zero only as underflow), variance >= 0, "
+            "volatility = sqrt(variance), dtype, equal buffer shapes, documented key set, no surviving old tensor. Three known findings.", "4 C11")
 NA = {}
 
 def main():
